@@ -8,6 +8,7 @@ import EaselModel.Msa.LemmasDyck
 import EaselModel.Msa.LemmasFrag
 import EaselModel.Msa.LemmasC2W
 import EaselModel.Msa.LemmasSsCols
+import EaselModel.Msa.LemmasNoPk
 /-! # C15 — alignment transformations keep the alignment well formed and the residues intact; WUSS round trips
 
 Property theorems only; proofs are glue on the lemmas of `EaselModel/Msa/Lemmas*.lean`.
@@ -369,6 +370,25 @@ theorem repaired_then_compacted_balanced (ss : Bytes) (mask : List Bool) (ct : L
     ∃ ss', removeBrokenFromSS ss mask = .ok ss' ∧ ss'.length = ss.length ∧
       wuss2ct ss' = some (breakPairs mask 1 ss.length ct) ∧ ∃ ct2, wuss2ct (maskFilter mask ss') = some ct2 :=
   repaired_then_compacted_balanced' ss mask ct h hn hm
+
+/-- the pair table of a balanced WUSS string WITHOUT pseudoknot letters is nested -/
+theorem wuss2ct_nopk_nested (ss : Bytes) (hnl : ∀ c ∈ ss, isAlpha c = false) (ct : List Nat) (h : wuss2ct ss = some ct) :
+    Nested ct :=
+  wuss2ct_nopk_nested' ss hnl ct h
+
+/-- wuss -> ct -> wuss -> ct is the identity on pair tables for every balanced WUSS string without pseudoknot letters:
+    `esl_ct2wuss` succeeds on its table and `esl_wuss2ct` reads the same table back -/
+theorem nopk_wuss_roundtrip (ss : Bytes) (hnl : ∀ c ∈ ss, isAlpha c = false) (ct : List Nat) (h : wuss2ct ss = some ct) :
+    ∃ ss2, ct2wuss ct = .ok ss2 ∧ wuss2ct ss2 = some ct :=
+  nested_roundtrip_total' ss.length ct (wuss2ct_ctOk ss ct h) (wuss2ct_nopk_nested' ss hnl ct h)
+
+/-- ... and for such an SS line a DNA/RNA ColumnSubset (repair, then compaction) succeeds, spells after the repair
+    exactly the pairs with both partners retained, and leaves a balanced WUSS string -/
+theorem nopk_repaired_then_compacted (ss : Bytes) (mask : List Bool) (hnl : ∀ c ∈ ss, isAlpha c = false) (ct : List Nat)
+    (h : wuss2ct ss = some ct) (hm : mask.length = ss.length) :
+    ∃ ss', removeBrokenFromSS ss mask = .ok ss' ∧ ss'.length = ss.length ∧
+      wuss2ct ss' = some (breakPairs mask 1 ss.length ct) ∧ ∃ ct2, wuss2ct (maskFilter mask ss') = some ct2 :=
+  repaired_then_compacted_balanced' ss mask ct h (wuss2ct_nopk_nested' ss hnl ct h) hm
 
 /-- ... in particular for the table of any bracket-only WUSS string: wuss -> ct -> wuss -> ct returns the same table
     whenever the table of the string is nested (the hypothesis `hn`; with pseudoknot letters the tables need not be
